@@ -33,6 +33,8 @@ pub fn all() -> Vec<&'static Check> {
         &worlds2::C10,
         &ops::C37,
         &rrdp::C38,
+        &rrdp::C31,
+        &rrdp::C29,
         &worlds2::C39,
         &hist2::C40,
         &worlds2::C41,
